@@ -297,11 +297,49 @@ func editArray(r *RNG, p Profile, a []any) []any {
 // Pair returns (a, b): three times in four b is a mutation of a, otherwise
 // two independent documents.
 func Pair(r *RNG, p Profile) (any, any) {
+	if r.Chance(0.02) {
+		return WideObjectPair(r, p)
+	}
 	a := Doc(r, p)
 	if r.Chance(0.25) {
 		return a, Doc(r, p)
 	}
 	return a, Mutate(r, p, a)
+}
+
+// WideObjectPair returns two objects (sometimes below a key or inside an
+// array) with 20-300 members that differ in one to four members, by
+// preference the first and last keys in sorted order: anything that sorts,
+// batches or pre-sizes by member count is exercised.
+func WideObjectPair(r *RNG, p Profile) (any, any) {
+	n := Pick(r, []int{20, 33, 64, 65, 129, 300})
+	a := map[string]any{}
+	for i := 0; i < n; i++ {
+		a[fmt.Sprintf("k%03d", i)] = Scalar(r, p)
+	}
+	if r.Chance(0.3) {
+		a["k001"] = map[string]any{"x": Scalar(r, p)}
+		a[fmt.Sprintf("k%03d", n-2)] = []any{Scalar(r, p), Scalar(r, p)}
+	}
+	b := ref.Clone(a).(map[string]any)
+	for e := r.Range(1, 4); e > 0; e-- {
+		k := Pick(r, []string{"k000", fmt.Sprintf("k%03d", n-1), fmt.Sprintf("k%03d", r.Intn(n)), fmt.Sprintf("k%03d", n+r.Intn(3)), "a", "z"})
+		switch r.Intn(3) {
+		case 0:
+			delete(b, k)
+		case 1:
+			b[k] = Scalar(r, p)
+		default:
+			b[k] = map[string]any{"y": Scalar(r, p)}
+		}
+	}
+	switch r.Intn(4) {
+	case 0:
+		return map[string]any{"w": a}, map[string]any{"w": b}
+	case 1:
+		return []any{a, Scalar(r, p)}, []any{b, Scalar(r, p)}
+	}
+	return a, b
 }
 
 // ---- keyed documents (SetKeys precondition) ----
